@@ -140,7 +140,7 @@ theorem live_builtins_restored_though_unsynced :
     (run liveCfg [.enter false, .op (.setDefaultWs " "), .exit false] ⟨liveInit, [], false, none⟩).st.builtins = liveInit.builtins := by
   refine ⟨?_, by decide, by decide⟩
   intro h
-  have := h ⟨['\t', '\r', ' '], true, false⟩ (by decide) rfl
+  have := h ⟨['\t', '\r', ' '], true, false, false⟩ (by decide) rfl
   revert this
   decide
 
@@ -208,6 +208,7 @@ theorem Excl_stepOp (cfg : Cfg) (o : Op) {s : State} (h : Excl s) : Excl (stepOp
   | copyExpr i => simp only [stepOp]; split <;> exact h
   | wrapExpr i => simp only [stepOp]; split <;> exact h
   | assignFwd i j => simp only [stepOp]; split <;> exact h
+  | newAlt i => simp only [stepOp]; split <;> exact h
   | _ => exact h
 
 /-- a saved context taken while at most one mode was on -/
@@ -312,15 +313,19 @@ example : (enablePackrat (some 5) false (enablePackrat (some 64) false liveInit)
 
 /-! ## 4. scope of `set_default_whitespace_chars` (attribute level) -/
 
-/-- the user's own changes to one of his expressions: `e.set_whitespace_chars(...)`, `fwd <<= e` -/
+/-- the user's own changes to one of his expressions: `e.set_whitespace_chars(...)`, `fwd <<= e`,
+    `e.leave_whitespace()`, `e.ignore_whitespace()` -/
 def Cmd.isExprSetWs : Cmd → Bool
   | .op (.exprSetWs _ _ _) => true
   | .op (.assignFwd _ _) => true
+  | .op (.leaveWs _) => true
+  | .op (.ignoreWs _) => true
   | _ => false
 
 /-- no setting change and no context entry/exit touches an existing user expression: the user
     expressions that existed before are still there, unchanged, in the same order (new ones are
-    appended) — unless the user calls `set_whitespace_chars` on one or assigns to a `Forward` himself -/
+    appended) — unless the user calls `set_whitespace_chars` / `leave_whitespace` / `ignore_whitespace` on
+    one or assigns to a `Forward` himself -/
 theorem users_untouched {cfg : Cfg} (hc : CfgOK cfg) : ∀ (cs : List Cmd) (m : Mach), MachOK cfg m →
     (∀ c ∈ cs, c.isExprSetWs = false) → ∃ ext, (run cfg cs m).st.users = m.st.users ++ ext
   | [], m, _, _ => ⟨[], by simp [run]⟩
@@ -339,6 +344,12 @@ theorem users_untouched {cfg : Cfg} (hc : CfgOK cfg) : ∀ (cs : List Cmd) (m : 
         have := hcs _ (List.mem_cons_self)
         simp [ho, Cmd.isExprSetWs] at this
       · intro i j ho
+        have := hcs _ (List.mem_cons_self)
+        simp [ho, Cmd.isExprSetWs] at this
+      · intro i ho
+        have := hcs _ (List.mem_cons_self)
+        simp [ho, Cmd.isExprSetWs] at this
+      · intro i ho
         have := hcs _ (List.mem_cons_self)
         simp [ho, Cmd.isExprSetWs] at this
     | enter r =>
@@ -369,22 +380,22 @@ theorem users_untouched {cfg : Cfg} (hc : CfgOK cfg) : ∀ (cs : List Cmd) (m : 
     (c) sets every built-in that follows the default to `set(c)` and leaves the other built-ins alone;
     (d) does not change any existing user expression (see `users_untouched` for arbitrary sequences);
     (e) a *composite* (`And`, `Group`/`Opt`/... wrappers) built afterwards over an existing expression
-        inherits that expression's set and `copyDefaultWhiteChars` flag, not the new default
-        (`MatchFirst`/`Or` take nothing over: they are `newExpr`);
+        inherits that expression's set, `copyDefaultWhiteChars` and `skipWhitespace` flags, not the new default
+        (`MatchFirst`/`Or` take only `skipWhitespace` over: `newAlt`, see `alt_ws_scope`);
     for `Forward`s see `forward_ws_scope_partial`.
     PARTIAL: the statement is about the attributes `whiteChars`/`copyDefaultWhiteChars`, which is all the
     setter touches; that these attributes determine which characters an expression actually skips, and
     how composites inherit them from their first sub-expression, is not modelled — it is checked on the
     real parser by the oracle (`ws-behaviour` stream). -/
 theorem default_ws_scope_partial (cfg : Cfg) (c : String) (s : State) :
-    (stepOp cfg .newExpr (setDefaultWs c s)).1.users = s.users ++ [⟨pySet c, true, false⟩] ∧
+    (stepOp cfg .newExpr (setDefaultWs c s)).1.users = s.users ++ [⟨pySet c, true, false, true⟩] ∧
     (∀ e : Expr, e.fwdEmpty = false →
       copyExpr (setDefaultWs c s) e = if e.copyDef then { e with ws := pySet c } else e) ∧
     (∀ e ∈ (setDefaultWs c s).builtins, e.copyDef = true → e.ws = pySet c) ∧
     BRelL s.builtins (setDefaultWs c s).builtins ∧
     (setDefaultWs c s).users = s.users ∧
     (∀ i e, s.users[i]? = some e →
-      (stepOp cfg (.wrapExpr i) (setDefaultWs c s)).1.users = s.users ++ [⟨e.ws, e.copyDef, false⟩]) := by
+      (stepOp cfg (.wrapExpr i) (setDefaultWs c s)).1.users = s.users ++ [⟨e.ws, e.copyDef, false, e.skip⟩]) := by
   refine ⟨rfl, ?_, ?_, ?_, rfl, ?_⟩
   rotate_left 3
   · intro i e he
@@ -397,7 +408,7 @@ theorem default_ws_scope_partial (cfg : Cfg) (c : String) (s : State) :
   · exact BRel_setDefaultWs c s.builtins s.builtins (BRel_refl _)
 
 /-- **forward_ws_scope_partial** (the `Forward` clauses of the same statement).
-    (a) `fwd <<= e` gives the Forward `e`'s whitespace set *and* `e`'s `copyDefaultWhiteChars` flag
+    (a) `fwd <<= e` gives the Forward `e`'s whitespace set *and* `e`'s `copyDefaultWhiteChars` and `skipWhitespace` flags
         (nothing else among the user expressions changes);
     (b) hence a copy (`copy()`, `fwd()`, `fwd("name")`) of an assigned Forward made after
         `set_default_whitespace_chars(c)` has `set(c)` iff the assigned expression follows the default —
@@ -408,15 +419,16 @@ theorem default_ws_scope_partial (cfg : Cfg) (c : String) (s : State) :
     PARTIAL in the same sense as `default_ws_scope_partial` (attributes; skipping is oracle-checked). -/
 theorem forward_ws_scope_partial (cfg : Cfg) (c : String) (s : State) (i j : Nat) (src : Expr)
     (hj : s.users[j]? = some src) :
-    (stepOp cfg (.assignFwd i j) s).1.users = modifyNth (fun _ => ⟨src.ws, src.copyDef, false⟩) i s.users ∧
+    (stepOp cfg (.assignFwd i j) s).1.users
+      = modifyNth (fun _ => ⟨src.ws, src.copyDef, false, src.skip⟩) i s.users ∧
     (src.copyDef = true →
-      copyExpr (setDefaultWs c (stepOp cfg (.assignFwd i j) s).1) ⟨src.ws, src.copyDef, false⟩
-        = ⟨pySet c, true, false⟩) ∧
+      copyExpr (setDefaultWs c (stepOp cfg (.assignFwd i j) s).1) ⟨src.ws, src.copyDef, false, src.skip⟩
+        = ⟨pySet c, true, false, src.skip⟩) ∧
     (src.copyDef = false →
-      copyExpr (setDefaultWs c (stepOp cfg (.assignFwd i j) s).1) ⟨src.ws, src.copyDef, false⟩
-        = ⟨src.ws, false, false⟩) ∧
-    (stepOp cfg .newFwd (setDefaultWs c s)).1.users = s.users ++ [⟨pySet c, true, true⟩] ∧
-    (∀ e : Expr, e.fwdEmpty = true → copyExpr (setDefaultWs c s) e = ⟨e.ws, e.copyDef, false⟩) := by
+      copyExpr (setDefaultWs c (stepOp cfg (.assignFwd i j) s).1) ⟨src.ws, src.copyDef, false, src.skip⟩
+        = ⟨src.ws, false, false, src.skip⟩) ∧
+    (stepOp cfg .newFwd (setDefaultWs c s)).1.users = s.users ++ [⟨pySet c, true, true, true⟩] ∧
+    (∀ e : Expr, e.fwdEmpty = true → copyExpr (setDefaultWs c s) e = ⟨e.ws, e.copyDef, false, e.skip⟩) := by
   refine ⟨?_, ?_, ?_, rfl, ?_⟩
   · simp only [stepOp, hj, wrapExpr]
   · intro h
@@ -430,8 +442,8 @@ example :
     let s0 := (stepOp liveCfg .newFwd (stepOp liveCfg .newExpr liveInit).1).1
     let s1 := (stepOp liveCfg (.assignFwd 1 0) s0).1
     let s2 := (stepOp liveCfg (.copyExpr 1) (setDefaultWs " " s1)).1
-    s2.users = [⟨['\t', '\n', '\r', ' '], true, false⟩, ⟨['\t', '\n', '\r', ' '], true, false⟩,
-                ⟨[' '], true, false⟩] := by decide
+    s2.users = [⟨['\t', '\n', '\r', ' '], true, false, true⟩, ⟨['\t', '\n', '\r', ' '], true, false, true⟩,
+                ⟨[' '], true, false, true⟩] := by decide
 
 /-- corollary of `restore_total_and_exact`: an expression built right after a context has been left gets
     the whitespace set of the default that was in force when the context was entered -/
@@ -448,6 +460,164 @@ theorem new_expr_after_exit {cfg : Cfg} (hc : CfgOK cfg) (m : Mach) (hm : MachOK
 example :
     let s := (stepOp liveCfg (.exprSetWs 0 "ab" false) (stepOp liveCfg .newExpr liveInit).1).1
     let s' := (stepOp liveCfg (.copyExpr 0) (stepOp liveCfg .newExpr (setDefaultWs "x" s)).1).1
-    s'.users = [⟨['a', 'b'], false, false⟩, ⟨['x'], true, false⟩, ⟨['a', 'b'], false, false⟩] := by decide
+    s'.users = [⟨['a', 'b'], false, false, true⟩, ⟨['x'], true, false, true⟩, ⟨['a', 'b'], false, false, true⟩] := by
+  decide
+
+/-! ## 5. `leave_whitespace` / `ignore_whitespace`: the default reaches copies whatever the skip flag -/
+
+/-- `leave_whitespace()` / `ignore_whitespace()` on a user expression change nothing but that expression's
+    `skipWhitespace` flag: no setting, no built-in, no other user expression, and not the expression's own
+    `whiteChars` / `copyDefaultWhiteChars` (so it keeps following — or not following — the default). -/
+theorem leave_ignore_only_flag (cfg : Cfg) (s : State) (i : Nat) :
+    stepOp cfg (.leaveWs i) s = ({ s with users := modifyNth (fun e => { e with skip := false }) i s.users }, none) ∧
+    stepOp cfg (.ignoreWs i) s = ({ s with users := modifyNth (fun e => { e with skip := true }) i s.users }, none) :=
+  ⟨rfl, rfl⟩
+
+/-- **copy_ws_whatever_skip.**  A copy (`copy()`, `expr()`, `expr("name")`, `set_results_name`) made while the
+    default whitespace is `s.defaultWs`:
+    (a) has `set(default)` if the source follows the default (`copyDefaultWhiteChars`), else the source's own
+        set — nothing else is consulted, in particular not `skipWhitespace`;
+    (b) hence has `set(default)` **iff** the source follows the default (or happens to have that set already);
+    (c) keeps the source's `skipWhitespace` and `copyDefaultWhiteChars`;
+    (d) copying commutes with `leave_whitespace()` / `ignore_whitespace()`: the copy of a `leave_whitespace()`d
+        expression is the `leave_whitespace()`d copy — its `whiteChars` are those any copy made now gets, so
+        switching skipping back on later (`ignore_whitespace()`) skips the default in force when the copy was
+        made (this also holds for the copy of an unassigned `Forward`). -/
+theorem copy_ws_whatever_skip (s : State) (e : Expr) :
+    (e.fwdEmpty = false → (copyExpr s e).ws = (if e.copyDef then pySet s.defaultWs else e.ws)) ∧
+    (e.fwdEmpty = false →
+      ((copyExpr s e).ws = pySet s.defaultWs ↔ (e.copyDef = true ∨ e.ws = pySet s.defaultWs))) ∧
+    (copyExpr s e).skip = e.skip ∧ (copyExpr s e).copyDef = e.copyDef ∧
+    copyExpr s (exprLeaveWs e) = exprLeaveWs (copyExpr s e) ∧
+    copyExpr s (exprIgnoreWs e) = exprIgnoreWs (copyExpr s e) := by
+  refine ⟨?_, ?_, ?_, ?_, ?_, ?_⟩
+  · intro h; by_cases hc : e.copyDef = true <;> simp [copyExpr, h, hc]
+  · intro h
+    by_cases hc : e.copyDef = true
+    · simp [copyExpr, h, hc]
+    · simp [copyExpr, h, hc]
+  · by_cases h : e.fwdEmpty = true <;> by_cases hc : e.copyDef = true <;> simp [copyExpr, wrapExpr, h, hc]
+  · by_cases h : e.fwdEmpty = true <;> by_cases hc : e.copyDef = true <;> simp [copyExpr, wrapExpr, h, hc]
+  · by_cases h : e.fwdEmpty = true <;> by_cases hc : e.copyDef = true <;>
+      simp [copyExpr, wrapExpr, exprLeaveWs, h, hc]
+  · by_cases h : e.fwdEmpty = true <;> by_cases hc : e.copyDef = true <;>
+      simp [copyExpr, wrapExpr, exprIgnoreWs, h, hc]
+
+/-- **behaviour = attributes** for a plain element (the whitespace part of `preParse`, core.py:800-812):
+    nothing is skipped unless `skipWhitespace`; with `skipWhitespace` exactly the longest prefix of characters of
+    `whiteChars` is skipped (every skipped character is in the set, the next one is not). -/
+theorem preParseWs_spec (e : Expr) (inp : List Char) :
+    (e.skip = false → preParseWs e inp = inp) ∧
+    (e.skip = true → ∃ pre, inp = pre ++ preParseWs e inp ∧ (∀ ch ∈ pre, ch ∈ e.ws) ∧
+      (∀ ch rest, preParseWs e inp = ch :: rest → ch ∉ e.ws)) := by
+  constructor
+  · intro h; simp [preParseWs, h]
+  · intro h
+    obtain ⟨pre, h1, h2, h3⟩ := dropWhile_spec (fun ch => e.ws.contains ch) inp
+    refine ⟨pre, by simpa [preParseWs, h] using h1, ?_, ?_⟩
+    · intro ch hch; simpa using h2 ch hch
+    · intro ch rest hr
+      have := h3 ch rest (by simpa [preParseWs, h] using hr)
+      simpa using this
+
+/-- the whitespace set of an expression that took `set(c)` has exactly the characters of the string `c` -/
+theorem mem_ws_of_default (c : String) (x : Char) : x ∈ pySet c ↔ x ∈ c.toList := mem_pySet x c
+
+/-- **leave → default change → copy → ignore** (the history of seeded change C19-4), for every state, every
+    user expression `i` that follows the default and every new default `c`:
+    `users[i].leave_whitespace(); set_default_whitespace_chars(c); cpy = users[i].copy(); cpy.ignore_whitespace()`
+    leaves the original as it was except for its flag, and the copy skips exactly the characters of `c`:
+    its attributes are `(set(c), copyDefaultWhiteChars, skipWhitespace)`, so by `preParseWs_spec` its `preParse`
+    removes the longest prefix of characters of `c`. -/
+theorem leave_copy_ignore_follows_default (cfg : Cfg) (c : String) (s : State) (i : Nat) (e : Expr)
+    (hi : s.users[i]? = some e) (hcd : e.copyDef = true) (hf : e.fwdEmpty = false) :
+    let s' := (run cfg [.op (.leaveWs i), .op (.setDefaultWs c), .op (.copyExpr i),
+                         .op (.ignoreWs s.users.length)] ⟨s, [], false, none⟩).st
+    s'.users = modifyNth exprLeaveWs i s.users ++ [⟨pySet c, true, false, true⟩] ∧
+    s'.defaultWs = c ∧
+    (∀ inp, preParseWs ⟨pySet c, true, false, true⟩ inp = inp.dropWhile (fun ch => c.toList.contains ch)) := by
+  have hlen : i < s.users.length := by
+    rcases Nat.lt_or_ge i s.users.length with h | h
+    · exact h
+    · rw [List.getElem?_eq_none h] at hi; cases hi
+  have hmod : ∀ (l : List Expr) (k : Nat) (x : Expr), l[k]? = some x →
+      (modifyNth exprLeaveWs k l)[k]? = some (exprLeaveWs x) := by
+    intro l
+    induction l with
+    | nil => intro k x h; simp at h
+    | cons a l ih =>
+      intro k x h
+      cases k with
+      | zero => simp only [List.getElem?_cons_zero, Option.some.injEq] at h; subst h; simp [modifyNth]
+      | succ k => simp only [List.getElem?_cons_succ] at h; simpa [modifyNth] using ih k x h
+  have hmlen : ∀ (l : List Expr) (k : Nat) (f : Expr → Expr), (modifyNth f k l).length = l.length := by
+    intro l
+    induction l with
+    | nil => intro k f; cases k <;> rfl
+    | cons a l ih => intro k f; cases k <;> simp [modifyNth, ih]
+  have hlast : ∀ (l : List Expr) (x : Expr) (f : Expr → Expr), modifyNth f l.length (l ++ [x]) = l ++ [f x] := by
+    intro l
+    induction l with
+    | nil => intro x f; rfl
+    | cons a l ih => intro x f; simp [modifyNth, ih]
+  have h1 := hmod s.users i e hi
+  refine ⟨?_, ?_, ?_⟩
+  · simp only [run, stepCmd, stepOp, setDefaultWs, h1]
+    have := hlast (modifyNth exprLeaveWs i s.users) (copyExpr { s with
+      defaultWs := c
+      builtins := s.builtins.map (fun e => if e.copyDef then { e with ws := pySet c } else e)
+      users := modifyNth exprLeaveWs i s.users } (exprLeaveWs e)) exprIgnoreWs
+    rw [hmlen] at this
+    rw [this]
+    simp [copyExpr, exprLeaveWs, exprIgnoreWs, hcd, hf]
+  · simp only [run, stepCmd, stepOp, setDefaultWs, h1]
+  · intro inp
+    simp only [preParseWs, if_true]
+    congr 1
+    funext ch
+    have := mem_pySet ch c
+    by_cases h : ch ∈ c.toList <;> simp_all
+
+example :
+    let s := (stepOp liveCfg .newExpr liveInit).1
+    (run liveCfg [.op (.leaveWs 0), .op (.setDefaultWs " \t"), .op (.copyExpr 0), .op (.ignoreWs 1)]
+      ⟨s, [], false, none⟩).st.users
+      = [⟨['\t', '\n', '\r', ' '], true, false, false⟩, ⟨['\t', ' '], true, false, true⟩] ∧
+    preParseWs ⟨['\t', ' '], true, false, true⟩ "\n  abc".toList = "\n  abc".toList ∧
+    preParseWs ⟨['\t', ' '], true, false, true⟩ " \t abc".toList = "abc".toList ∧
+    preParseWs ⟨['\t', ' '], true, false, false⟩ " \t abc".toList = " \t abc".toList := by decide
+
+/-- **across a context**: after `with reset_pyparsing_context(): body` (any well-nested `body`), a copy of *any*
+    expression that follows the default — built before, or inside the block under another default, skipping or
+    `leave_whitespace()`d — gets the whitespace set of the default that was in force on entry; nothing of the
+    setting inside the block survives in copies made after it. -/
+theorem copy_after_exit_follows_entry_default {cfg : Cfg} (hc : CfgOK cfg) (m : Mach) (hm : MachOK cfg m)
+    (body : List Cmd) (hb : Balanced body) (r v : Bool) (e : Expr) (hf : e.fwdEmpty = false)
+    (hcd : e.copyDef = true) :
+    copyExpr (run cfg (.enter r :: body ++ [.exit v]) m).st e = { e with ws := pySet m.st.defaultWs } := by
+  have h := (restore_total_and_exact hc m hm body hb r v).2.2.1
+  have hw : (run cfg (.enter r :: body ++ [.exit v]) m).st.defaultWs = m.st.defaultWs := by
+    have := congrArg Obs.defaultWs h
+    simpa [obs] using this
+  simp only [List.cons_append] at hw
+  simp [copyExpr, hf, hcd, hw]
+
+/-- non-vacuity / the second half of the C19-4 demo: an expression built and `leave_whitespace()`d inside a block
+    that set the default to `" \t"`; copied after the block and told to skip again, it skips the entry default -/
+example :
+    (run liveCfg [.enter false, .op (.setDefaultWs " \t"), .op .newExpr, .op (.leaveWs 0), .exit false,
+                  .op (.copyExpr 0), .op (.ignoreWs 1)] ⟨liveInit, [], false, none⟩).st.users
+      = [⟨['\t', ' '], true, false, false⟩, ⟨['\t', '\n', '\r', ' '], true, false, true⟩] := by decide
+
+/-- `MatchFirst` / `Or` over an existing expression: whitespace set and `copyDefaultWhiteChars` of a new element
+    (current default), `skipWhitespace` of the alternative -/
+theorem alt_ws_scope (cfg : Cfg) (c : String) (s : State) (i : Nat) (e : Expr) (hi : s.users[i]? = some e) :
+    (stepOp cfg (.newAlt i) (setDefaultWs c s)).1.users = s.users ++ [⟨pySet c, true, false, e.skip⟩] := by
+  have : (setDefaultWs c s).users[i]? = some e := hi
+  simp only [stepOp, this, newAlt]
+  rfl
+
+example : (stepOp liveCfg (.newAlt 0) (stepOp liveCfg (.leaveWs 0) (stepOp liveCfg .newExpr liveInit).1).1).1.users
+    = [⟨['\t', '\n', '\r', ' '], true, false, false⟩, ⟨['\t', '\n', '\r', ' '], true, false, false⟩] := by decide
 
 end PP.Settings
